@@ -1,1 +1,59 @@
-fn main() {}
+mod common;
+mod e4;
+mod subjects;
+
+use common::*;
+
+fn usage() -> ! {
+    eprintln!("usage: verif setup | verif check <ID> quick|thorough | verif check <ID> --replay <file>");
+    std::process::exit(2);
+}
+
+fn main() {
+    let args: Vec<String> = std::env::args().collect();
+    match args.get(1).map(|s| s.as_str()) {
+        Some("setup") => {
+            let ctx = Ctx::new("quick");
+            lock_subjects(&ctx);
+            subjects::ensure(&ctx, &subjects::SlotCfg::default());
+            for p in ["purefn", "purefn_esm"] {
+                let (ok, _o, e) = subjects::cargo_build(&ctx, &[p], &[]);
+                if !ok {
+                    eprintln!("{e}");
+                    std::process::exit(1);
+                }
+            }
+            println!("setup ok");
+        }
+        Some("check") => {
+            let id = args.get(2).cloned().unwrap_or_else(|| usage());
+            let mode = args.get(3).cloned().unwrap_or_else(|| "quick".into());
+            if mode == "--replay" {
+                let file = args.get(4).cloned().unwrap_or_else(|| usage());
+                let ctx = Ctx::new("quick");
+                match id.as_str() {
+                    "C08" | "C05" => e4::replay_cmd(&ctx, &id, &file),
+                    _ => inconclusive("replay not implemented for this property"),
+                }
+            }
+            let tier = std::env::var("VERIF_TIER").ok().filter(|t| t == "quick" || t == "thorough").unwrap_or(mode);
+            if tier != "quick" && tier != "thorough" {
+                usage();
+            }
+            let ctx = Ctx::new(&tier);
+            match id.as_str() {
+                "C08" => e4::c08(&ctx),
+                "C05" => {
+                    lock_subjects(&ctx);
+                    let known = load_known(&ctx, "C05");
+                    let mut out = Outcome::default();
+                    out.rule = "text level: sets of 2-5 standalone file texts in export_to_string format (name pool with prefixes/generics, overlapping import modules, doc comments containing `export type`/`import type`/` from `, multi-line bodies with field docs) folded through merge() in all permutations (<=4 elements; 30 of 120 for 5) and all prefixes, compared with the reference combiner. Non-trivial: >=3 types with a doc comment or overlapping import modules; distinct by text set".into();
+                    e4::c05_text(&ctx, &mut out, &known);
+                    finish(&ctx, "C05", out)
+                }
+                _ => inconclusive("no such check"),
+            }
+        }
+        _ => usage(),
+    }
+}
